@@ -607,6 +607,22 @@ func (e *Engine) readModel(s *Solver, pr *Printer) map[string]string {
 			keys = append(keys, nd.Name)
 		}
 	}
+	// path guards: which of the drawn values lie on the model's path
+	guardKey := map[string]int{}
+	for i, nd := range e.nondets {
+		if nd.G == nil || nd.G.IsTrue() || !pr.defined[nd.T.id] {
+			continue
+		}
+		if nd.G.IsConst() {
+			continue
+		}
+		if !pr.defined[nd.G.id] {
+			continue // guard mentions terms outside the query: treat as on-path
+		}
+		guardKey[nd.Name] = len(exprs)
+		exprs = append(exprs, pr.ref(nd.G))
+		keys = append(keys, fmt.Sprintf("guard#%d", i))
+	}
 	vals, err := s.GetValues(exprs)
 	m := map[string]string{}
 	if err != nil {
@@ -616,6 +632,9 @@ func (e *Engine) readModel(s *Solver, pr *Printer) map[string]string {
 	// collapse byte arrays into hex strings
 	bytesOf := map[string][]byte{}
 	for i, k := range keys {
+		if strings.HasPrefix(k, "guard#") {
+			continue
+		}
 		if j := strings.IndexByte(k, '['); j >= 0 {
 			v, _ := parseBV(vals[i])
 			bytesOf[k[:j]] = append(bytesOf[k[:j]], byte(v))
@@ -630,6 +649,25 @@ func (e *Engine) readModel(s *Solver, pr *Printer) map[string]string {
 	}
 	for k, b := range bytesOf {
 		m[k] = fmt.Sprintf("hex:%x", b)
+	}
+	// path-ordered view: the k-th value of a tag that the NATIVE run draws is the
+	// k-th one whose guard is true in the model ("path.<tag>.<k>")
+	pathIdx := map[string]int{}
+	for _, nd := range e.nondets {
+		onPath := true
+		if gi, ok := guardKey[nd.Name]; ok {
+			onPath = strings.TrimSpace(vals[gi]) == "true"
+		} else if nd.G != nil && nd.G.IsFalse() {
+			onPath = false
+		}
+		if !onPath {
+			continue
+		}
+		k := pathIdx[nd.Tag]
+		pathIdx[nd.Tag] = k + 1
+		if v, ok := m[nd.Name]; ok {
+			m[fmt.Sprintf("path.%s.%d", nd.Tag, k)] = v
+		}
 	}
 	return m
 }
